@@ -62,8 +62,8 @@ pub fn check(prop: &str, tier: &str) -> Option<Report> {
   last_pos.extend(direct.clone());
   match prop {
     "C02" => {
-      let w1 = Arc::new(c02_worlds(if th { 5 } else { 4 }, &[1, 2, 3]));
-      let w2 = Arc::new(c02_worlds(3, &[1, 2, 3]));
+      let w1 = Arc::new(c02_worlds(if th { 6 } else { 4 }, &[1, 2, 3]));
+      let w2 = Arc::new(c02_worlds(if th { 5 } else { 3 }, &[1, 2, 3]));
       let wl = Arc::new(lib_worlds(1));
       let mut with_src = vec![Node::Src(0)];
       with_src.extend(depth1(&last_pos));
@@ -75,7 +75,7 @@ pub fn check(prop: &str, tier: &str) -> Option<Report> {
       ];
       fams.remove(0);
       if th {
-        let w3 = Arc::new(c02_worlds(3, &[1, 2]));
+        let w3 = Arc::new(c02_worlds(4, &[1, 2, 3]));
         fams.push((Family { name: "depth 3 (reduced catalogue)".into(), pipelines: depth3(&reduced_ops()), worlds: w3, oracles: vec![Oracle::Functional] }, 3));
         let w8: Vec<World> = wf_scripts(&[1, 2], 8, &[Ending::Complete, Ending::Error]).into_iter().filter(|s| s.len() >= 7).map(|s| cold_world(s, true)).collect();
         fams.push((Family { name: "depth 1, long scripts over {1,2}".into(), pipelines: depth1(&last_pos), worlds: Arc::new(w8), oracles: vec![Oracle::Functional] }, 1));
